@@ -703,8 +703,31 @@ class Interp:
                 return a
         r = self.lib.obj_attr(self, o, name, fr, node)
         if r is MISSING:
+            if cls is not None and name in self.declared_instance_attrs(cls):
+                # the source declares it, the sidecar type table does not know it: outside the verified subset, not an AttributeError
+                raise Unsupported(f"field {cls.name}.{name} is declared in the source but missing from the sidecar type table (contracts/types.py)")
             raise RaiseSig(self.make_exc("AttributeError", site=node))
         return r
+
+    def declared_instance_attrs(self, cls):
+        """Instance attribute names the source of the class (and its repository bases) declares: dataclass fields,
+        annotated class-level names, and `self.x = ...` / `self.x: T = ...` stores in its methods."""
+        cache = self.w.__dict__.setdefault("_declared_attrs", {})
+        if cls.qualname not in cache:
+            names = set()
+            for c in cls.mro():
+                for fname, *_ in getattr(c, "dc_fields", []) or []:
+                    names.add(fname)
+                for v in c.ns.values():
+                    f = v.func if isinstance(v, (ClassMethodVal, StaticMethodVal)) else (v.fget if isinstance(v, PropertyVal) else v)
+                    node = getattr(f, "node", None)
+                    if node is None:
+                        continue
+                    for x in ast.walk(node):
+                        if isinstance(x, ast.Attribute) and isinstance(x.ctx, ast.Store) and isinstance(x.value, ast.Name) and x.value.id == "self":
+                            names.add(x.attr)
+            cache[cls.qualname] = names
+        return cache[cls.qualname]
 
     def ev_Subscript(self, n, fr):
         v = self.ev(n.value, fr)
@@ -721,7 +744,10 @@ class Interp:
             return self.d_getitem(v, k, fr, node)
         if isinstance(v, dict):
             if isinstance(k, (Sym, Obj)):
-                raise Unsupported("symbolic key into concrete dict")
+                for key in list(v):
+                    if self.c.branch(self.as_bool(self.eq_term(k, key)), "dict-key"):
+                        return v[key]
+                raise RaiseSig(self.make_exc("KeyError", site=node))
             if k not in v:
                 raise RaiseSig(self.make_exc("KeyError", site=node))
             return v[k]
